@@ -180,6 +180,14 @@ def r3(ctx):
             drain = [n for n in after if n.ast is not None and n.kind != "join" and any(cfg_attr(x) == "graceful_timeout" for root in n.cover for x in ast.walk(root))]
             ctx.check("C04.R3", bool(drain), key(f, "bounded-drain"), site(f), "after the `alive` loop %s does not wait for in-flight requests with a bound derived from cfg.graceful_timeout" % f.short,
                       "drain bounded by graceful_timeout: `%s`" % (drain[0].text if drain else ""))
+    # the thread pool is shut down without cancelling queued (already accepted) requests
+    for f in repo.cls("gunicorn.workers.gthread.ThreadWorker").methods.values():
+        for c in method_calls(f, "shutdown"):
+            if "pool" in norm(c.func.value):
+                cancel = [k for k in c.keywords if k.arg == "cancel_futures" and const(k.value, NO) is not False] + ([c.args[1]] if len(c.args) > 1 else [])
+                ctx.check("C04.R3", not cancel, key(f, "pool-shutdown-cancels"), site(f, c),
+                          "`%s` cancels futures that were queued but not started: connections already accepted and handed to the pool are closed unanswered when the worker stops "
+                          "(TERM, max_requests)" % norm(c), "pool shutdown keeps queued requests")
     # no `alive` test may abandon a request between wsgi.create and resp.close
     for q in ["gunicorn.workers.sync.SyncWorker.handle_request", "gunicorn.workers.gthread.ThreadWorker.handle_request", "gunicorn.workers.base_async.AsyncWorker.handle_request"]:
         f = ctx.fn(repo.func(q))
